@@ -2,7 +2,7 @@ SPECIFICATION SimSpec
 CONSTANTS
   NRoots = 2
   NLeaves = 4
-  Box = 64
+  Box = 128
   Dims = 2
   MaxTime = 12
   Depth = 30
